@@ -134,6 +134,9 @@ impl Worker {
         }
         h.write_u64(r.sched.points);
         bump(&mut rm.stats, "worlds", 1);
+        if w.log_level > 3 {
+            bump(&mut rm.stats, "dim.log_level_debug_or_trace", 1);
+        }
         bump(&mut rm.stats, "jobs", w.jobs.len() as u64);
         bump(&mut rm.stats, "sched.points", r.sched.points);
         bump(&mut rm.stats, "sched.decisions", r.sched.decisions);
